@@ -146,6 +146,10 @@ pub fn prepare(case: &DripCase) -> Prepared {
                 if (i / k) % 5 == 0 {
                     tags[pi].push((i, key.clone(), TagValue::U64(1_000_000 + i as u64)));
                 }
+                // ... and some tags twice, identically: two tags are two tags
+                if (i / k) % 7 == 3 {
+                    tags[pi].push((i, key.clone(), TagValue::U64(i as u64)));
+                }
                 i += k;
             }
         }
